@@ -95,12 +95,17 @@ def build(case):
             theta_funcs[n] = (lambda g, a=a: a)
             continue
         shape = dep[n]
-        if variant in ("signature", "zero_at_origin"):
+        if variant in ("signature", "zero_at_origin"):  # noqa
             d = DependenceFunction(mk_func(shape, a, b, True))
             theta_funcs[n] = (lambda g, s=shape, a=a, b=b: raw(s, g, a, b))
         elif variant == "assigned":
             d = DependenceFunction(mk_func(shape, a, b, False))
             d.parameters = {"a": a, "b": b} if shape != "const" else {"a": a}
+            theta_funcs[n] = (lambda g, s=shape, a=a, b=b: raw(s, g, a, b))
+        elif variant == "assigned_reversed":
+            # the same coefficients assigned as a dict whose keys are in another order (a dict is keyed by name)
+            d = DependenceFunction(mk_func(shape, a, b, False))
+            d.parameters = {"b": b, "a": a} if shape != "const" else {"a": a}
             theta_funcs[n] = (lambda g, s=shape, a=a, b=b: raw(s, g, a, b))
         elif variant == "int_constant":
             # the dependence function returns a python int (whatever the conditioning value is)
@@ -301,7 +306,7 @@ def main(ctx):
         for k in range(1, len(names) + 1):
             for dep_names in itertools.combinations(names, k):
                 for assign in itertools.product(shapes, repeat=k):
-                    variants = ["signature", "assigned"]
+                    variants = ["signature", "assigned", "assigned_reversed"]
                     if assign == ("const",) * k and k == 1:
                         variants += ["int_constant"]
                     if assign == ("inc",) * k:
